@@ -107,7 +107,11 @@ Inductive case :=
 (* non_negative_parafac_hals(init=(w, fs), fixed_modes=fixed, n_iter_max=0): returned weights and factors = its start state *)
 | CHalsInit (id : nat) (R n : nat) (fixed : list nat) (w : option (list Z)) (fs : list zmat) (out_w : list Z) (out_fs : list zmat)
 | CP2Init (id : nat) (rank : nat) (init : p2init Z) (Q Rm : zmat) (J : nat)
-          (observed : res (list Z * list zmat * list zmat)) (dense_out dense_init : tensor Z).
+          (observed : res (list Z * list zmat * list zmat)) (dense_out dense_init : tensor Z)
+(* parafac2(init=..., nn_modes=nn, n_iter_max=0): the start state behind the nn_modes gate.  builtin = false: a user-supplied
+   decomposition; builtin = true: init="random" with initialize_decomposition replaced by a recorded integer answer `init` *)
+| CP2Start (id : nat) (rank : nat) (builtin : bool) (nn : option (list nat)) (init : p2init Z) (Q Rm : zmat)
+           (observed : res (list Z * list zmat * list zmat)).
 
 Definition agree (c : case) : bool :=
   match c with
@@ -138,12 +142,16 @@ Definition agree (c : case) : bool :=
       | Ok x => zt_eqb (p2_state_dense J x) dense_out && zt_eqb dense_out dense_init
       | Err => true
       end
+  | CP2Start _ rank builtin nn init Q Rm observed =>
+      res_eqb p2_state_eqb
+        (match p2_start 1%Z (fun _ => (Q, Rm)) rank (map (map (Z.max 0))) builtin nn init with
+         | Ok s => Ok (p2w s, p2f s, p2P s) | Err => Err end) observed
   end.
 
 Definition ident (c : case) : nat :=
   match c with
   | CInit i _ _ _ _ _ | CDense i _ _ _ _ | CTrace i _ _ _ _ _ _ _ _ _ _ | CTuckerTape i _ _ _ _ _ _ _ _ _ | CTuckerLists i _ _ _
   | CTuckerZero i _ _ _ _ | CTuckerDense i _ _ _ | CP2Dense i _ _ _ _ _ _ _ _ | CNtdInit i _ _ _ _
-  | CP2Init i _ _ _ _ _ _ _ _ | CHalsInit i _ _ _ _ _ _ _ => i
+  | CP2Init i _ _ _ _ _ _ _ _ | CHalsInit i _ _ _ _ _ _ _ | CP2Start i _ _ _ _ _ _ _ => i
   end.
 Definition failing := failing_ids agree ident.
